@@ -140,6 +140,8 @@ def check_element(case, n, slots, S, cl):
         cl.add("width_exceeds_live_prefixes")
     if W > info["max_live"] and L > 0:
         cl.add("width_beyond_all_steps")
+    if L >= 5:
+        cl.add("input_of_5_or_more_frames")
     if any(p == 0.0 for p in probs):
         cl.add("zero_mass_slot")
     if any(p == NEG_INF for p in probs):
@@ -155,12 +157,14 @@ def reachable(V, T):
 
 
 def _search_cases(tier, width_mode="any", fusion_mode="any"):
-    maxT = 4 if tier == "quick" else 5
+    # the alignment enumeration costs (V+1)^T: longer inputs for smaller vocabularies
+    maxT = {1: 6, 2: 5, 3: 4} if tier == "quick" else {1: 7, 2: 6, 3: 5}
 
     @st.composite
     def _s(draw):
         V = draw(st.sampled_from([2, 1, 3]))
-        T = draw(st.sampled_from([3, 2, 4, 1, 0] + ([5] if maxT >= 5 else [])))
+        T = draw(st.sampled_from([3, 5, 4, 2, 1, 0, 6, 7]))
+        T = min(T, maxT[V])
         N = draw(st.sampled_from([2, 1, 3]))
         kind = draw(st.sampled_from(["generic", "dominant", "identical_frames", "tiny_prob", "generic"]))
         frame = st.lists(st.integers(-12, 12), min_size=V + 1, max_size=V + 1)
@@ -176,7 +180,7 @@ def _search_cases(tier, width_mode="any", fusion_mode="any"):
         if kind == "tiny_prob" and T:
             t0, n0, v0 = draw(st.integers(0, T - 1)), draw(st.integers(0, N - 1)), draw(st.integers(0, V))
             logits[t0][n0][v0] = -120  # logit -30: probability about 1e-13, not zero
-        lens = draw(st.one_of(st.none(), st.lists(st.integers(0, T), min_size=N, max_size=N)))
+        lens = draw(st.one_of(st.lists(st.integers(0, T), min_size=N, max_size=N), st.none()))
         R = reachable(V, T)
         if width_mode == "wide":
             width = draw(st.sampled_from([R, R + 1, R + 7, 2 * R + 3, max(2, R // 2)]))
@@ -252,7 +256,8 @@ def _search_check(case):
 
 
 subcheck("C05", "search", lambda tier: _search_cases(tier), 1200, 30000,
-         doc="generated logits on a k/4 grid (classes generic / dominant label / identical frames / one ~1e-13 probability), T 0..4|5, "
+         doc="generated logits on a k/4 grid (classes generic / dominant label / identical frames / one ~1e-13 probability), T 0..4-6|5-7 "
+             "(longer for smaller V), "
              "V 1..3 (+blank), N 1..3, lens unset or mixed incl. 0, widths 1..far beyond, fusion none/shallow/valid mixture with a "
              "HashLM; oracle = complete alignment enumeration (exact mass) + dictionary prefix-beam recursion of the same width; "
              "batched vs solo",
@@ -262,10 +267,145 @@ subcheck("C05", "search", lambda tier: _search_cases(tier), 1200, 30000,
 subcheck("C05", "wide", lambda tier: _search_cases(tier, width_mode="wide", fusion_mode="none"), 800, 20000,
          doc="widths from the number of reachable prefixes to far beyond it, no fusion: exact mass for every prefix, empty slots "
              "carry 0/-inf behind the real ones, no NaN, no duplicates",
-         required_classes=["width_exceeds_live_prefixes", "width_beyond_all_steps", "never_pruned", "neg_inf_slot"])(_search_check)
+         required_classes=["width_exceeds_live_prefixes", "width_beyond_all_steps", "never_pruned", "neg_inf_slot",
+                           "input_of_5_or_more_frames"])(_search_check)
 
 subcheck("C05", "fused", lambda tier: _search_cases(tier, fusion_mode="lm"), 800, 20000,
          doc="shallow fusion and valid mixture with beta in {0.25, 0.5, 0.75, 1} and a HashLM whose state lives only in prev "
              "(extract_by_src / mix_by_mask must follow the surviving prefixes): same oracles with the fused extension scores",
          required_classes=["fusion_active", "stateful_fused_lm", "fusion_shallow", "fusion_valid", "pruned_unambiguous",
                            "width_exceeds_live_prefixes"])(_search_check)
+
+
+# ------------------------------------------------------------------ the step function
+
+
+def _advance_cases(tier):
+    @st.composite
+    def _s(draw):
+        V = draw(st.sampled_from([2, 1, 3]))
+        N = draw(st.sampled_from([1, 2]))
+        Kp = draw(st.sampled_from([2, 3, 1, 4]))
+        pref = st.lists(st.integers(0, V - 1), min_size=0, max_size=3).map(tuple)
+        elems = []
+        for _ in range(N):
+            ps = draw(st.lists(pref, min_size=Kp, max_size=Kp, unique=True))
+            # beams usually hold related prefixes: often make some a one-token extension of another
+            if Kp >= 2 and draw(st.booleans()):
+                base = ps[0]
+                cand = tuple(base) + (draw(st.integers(0, V - 1)),)
+                if len(cand) <= 3 and cand not in ps:
+                    ps[1] = cand
+            nb = [0 if not p else draw(st.integers(0, 8)) for p in ps]
+            b = [draw(st.integers(0, 8)) for _ in ps]
+            ext = [[draw(st.integers(1, 8)) for _ in range(V)] for _ in ps]
+            nonext = [draw(st.integers(1, 8)) for _ in range(V)]
+            blank = draw(st.integers(1, 8))
+            junk_last = draw(st.integers(0, V - 1))
+            elems.append({"prefixes": [list(p) for p in ps], "nb": nb, "b": b, "ext": ext, "nonext": nonext, "blank": blank,
+                          "junk_last": junk_last})
+        width = draw(st.integers(1, Kp * (V + 1) + 3))
+        return {"V": V, "N": N, "Kp": Kp, "elems": elems, "width": width, "extra_row": draw(st.booleans())}
+
+    return _s()
+
+
+def _is_prefix(a, b):
+    return len(a) <= len(b) and tuple(b[: len(a)]) == tuple(a)
+
+
+@subcheck("C05", "advance", _advance_cases, 1500, 30000,
+          doc="ctc_prefix_search_advance on a generated beam of distinct prefixes with dyadic blank / non-blank masses and dyadic frame "
+              "scores (all arithmetic exact): the valid slots are the best candidates of one dictionary step (merge of an extension "
+              "into an identical prefix included) with exactly their (non-blank, blank) masses; lengths, last tokens, sources and the "
+              "prefix-relation matrix are consistent; slots beyond the candidates carry -inf",
+          required_classes=["merge", "width_beyond_candidates", "prunes", "batch_2"])
+def _advance_check(case):
+    import torch
+    from pydrobert.torch.functional import ctc_prefix_search_advance
+
+    V, N, Kp, W = case["V"], case["N"], case["Kp"], case["width"]
+    S = max(len(p) for e in case["elems"] for p in e["prefixes"]) + (1 if case["extra_row"] else 0)
+    y_prev = torch.zeros((S, N, Kp), dtype=torch.long)
+    lens = torch.zeros((N, Kp), dtype=torch.long)
+    last = torch.zeros((N, Kp), dtype=torch.long)
+    isp = torch.zeros((N, Kp, Kp), dtype=torch.bool)
+    nb = torch.zeros((N, Kp))
+    b = torch.zeros((N, Kp))
+    ext = torch.zeros((N, Kp, V))
+    nonext = torch.zeros((N, V))
+    blank = torch.zeros((N,))
+    for n, e in enumerate(case["elems"]):
+        for k, p in enumerate(e["prefixes"]):
+            for t, v in enumerate(p):
+                y_prev[t, n, k] = v
+            lens[n, k] = len(p)
+            last[n, k] = p[-1] if p else e["junk_last"]
+            nb[n, k] = e["nb"][k] / 16
+            b[n, k] = e["b"][k] / 16
+            for v in range(V):
+                ext[n, k, v] = e["ext"][k][v] / 8
+            for k2, p2 in enumerate(e["prefixes"]):
+                isp[n, k, k2] = _is_prefix(p, p2)
+        for v in range(V):
+            nonext[n, v] = e["nonext"][v] / 8
+        blank[n] = e["blank"] / 8
+    (y_next, y_next_last, y_next_lens, (nb_next, b_next), next_isp, next_src, next_nonext) = ctc_prefix_search_advance(
+        (ext, nonext, blank), W, (nb, b), y_prev, last, lens, isp)
+    require(list(y_next.shape) == [S + 1, N, W] and list(y_next_lens.shape) == [N, W] and list(nb_next.shape) == [N, W]
+            and list(b_next.shape) == [N, W] and list(next_isp.shape) == [N, W, W] and list(next_src.shape) == [N, W]
+            and list(next_nonext.shape) == [N, W] and list(y_next_last.shape) == [N, W], "result shapes", list(y_next.shape), [S + 1, N, W])
+    cl = set()
+    for n, e in enumerate(case["elems"]):
+        ps = [tuple(p) for p in e["prefixes"]]
+        cand = {}
+        merged = False
+        for k, p in enumerate(ps):
+            c = cand.setdefault(p, [0.0, 0.0])
+            c[1] += (e["nb"][k] + e["b"][k]) / 16 * e["blank"] / 8
+            if p:
+                c[0] += e["nb"][k] / 16 * e["nonext"][p[-1]] / 8
+            for v in range(V):
+                m = (e["b"][k] if (p and p[-1] == v) else e["nb"][k] + e["b"][k]) / 16 * e["ext"][k][v] / 8
+                q = p + (v,)
+                if q in ps:
+                    merged = True
+                cand.setdefault(q, [0.0, 0.0])[0] += m
+        totals = sorted((x + y for x, y in cand.values()), reverse=True)
+        m_valid = min(W, len(cand))
+        got_tot = [float(nb_next[n, k] + b_next[n, k]) for k in range(W)]
+        require(not any(math.isnan(t) for t in got_tot), "NaN mass", got_tot, "no NaN")
+        require(got_tot[:m_valid] == totals[:m_valid], "element %d: total masses are not the best candidates of the step, best first" % n,
+                got_tot, totals[:m_valid])
+        require(all(t == NEG_INF for t in got_tot[m_valid:]), "element %d: slots beyond the legitimate candidates must carry -inf" % n,
+                got_tot[m_valid:], "-inf")
+        seen = []
+        for k in range(m_valid):
+            L = int(y_next_lens[n, k])
+            require(0 <= L <= S + 1, "length out of range", L, S + 1)
+            p = tuple(int(v) for v in y_next[:L, n, k])
+            require(p in cand, "element %d slot %d: %s is not a candidate of the step" % (n, k, list(p)), list(p), sorted(map(list, cand)))
+            require(p not in seen, "element %d: prefix %s returned twice" % (n, list(p)), list(p), None)
+            seen.append(p)
+            require([float(nb_next[n, k]), float(b_next[n, k])] == cand[p], "element %d: (non-blank, blank) mass of %s" % (n, list(p)),
+                    [float(nb_next[n, k]), float(b_next[n, k])], cand[p])
+            s = int(next_src[n, k])
+            require(0 <= s < Kp, "next_src out of range", s, Kp)
+            if bool(next_nonext[n, k]):
+                require(ps[s] == p, "slot marked non-extending differs from its source", list(p), list(ps[s]))
+            else:
+                require(p[:-1] == ps[s] and len(p) == len(ps[s]) + 1, "slot marked extending is not source + one token", list(p), list(ps[s]))
+            if p:
+                require(int(y_next_last[n, k]) == p[-1], "y_next_last", int(y_next_last[n, k]), p[-1])
+        for k in range(m_valid):
+            for k2 in range(m_valid):
+                require(bool(next_isp[n, k, k2]) == _is_prefix(seen[k], seen[k2]), "element %d: next_is_prefix[%d,%d]" % (n, k, k2),
+                        bool(next_isp[n, k, k2]), {"k": list(seen[k]), "k'": list(seen[k2])})
+        if merged:
+            cl.add("merge")
+        if W > len(cand):
+            cl.add("width_beyond_candidates")
+        if W < len(cand):
+            cl.add("prunes")
+    cl.add("batch_%d" % N)
+    return Info(nontrivial="merge" in cl or "width_beyond_candidates" in cl, classes=sorted(cl))
